@@ -49,7 +49,8 @@ def split_program(rng, lines, nested_dirs=False):
         where[path] = wh
 
     build("a.s", list(range(len(lines))), 0)
-    return [(p, "\n".join(ls) + "\n") for p, ls in files.items()], "a.s", where
+    # a file's last line may lack its newline (the reader closes it): in the base file and in included files
+    return [(p, "\n".join(ls) + ("\n" if rng.random() < 0.65 else "")) for p, ls in files.items()], "a.s", where
 
 
 def key_items(items, where=None, base_dir=None):
@@ -93,6 +94,23 @@ def run(ctx):
             cases.append((p, files, base, where))
     pasted = lib.run_impl(ctx, [lib.store_cmd("repeat 1", pipe.single("\n".join(p) + "\n"), "a.s") for p, _, _, _ in cases], tag="pasted")
     split = lib.run_impl(ctx, [lib.store_cmd("repeat 1", f, b) for _, f, b, _ in cases], tag="split")
+    # nodes and parse errors of the tree = those of the pasted file, up to positions (the statement sequence itself)
+    ERASE = re.compile(r"@[^ )\]]*")
+    def shape(line):
+        line = re.sub(r" \| [^)]*\)", ")", line)
+        line = re.sub(r"\d+\.\d+\.\d+ \d+\.\d+\.\d+/\w+( \d+\.\d+\.\d+)?", "", line)       # token range [+ error position] of a parse error
+        return [x for x in re.findall(r"[NE]\((?:[^()]|\([^()]*\))*\)", ERASE.sub("", line)) if not x.startswith("N(progentry")]
+    pp = lib.run_impl(ctx, [lib.store_cmd("parse", pipe.single("\n".join(p) + "\n"), "a.s") for p, _, _, _ in cases], tag="pasted-parse")
+    sp = lib.run_impl(ctx, [lib.store_cmd("parse", f, b) for _, f, b, _ in cases], tag="split-parse")
+    for (p, files, base, where), a, b in zip(cases, pp, sp):
+        if a.endswith(("TIMEOUT", "PANIC", "CRASH")) or b.endswith(("TIMEOUT", "PANIC", "CRASH")):
+            continue
+        sa, sb_ = shape(a), shape(b)
+        if sa != sb_:
+            i = next((i for i, (x, y) in enumerate(zip(sa, sb_)) if x != y), min(len(sa), len(sb_)))
+            failing.append(dict(files=files, base=base, kind="cut-parse", pasted="\n".join(p),
+                                why="the include tree does not parse to the statements of the pasted file: item %d is %s in the pasted file and %s in the tree (%d vs %d items)" % (
+                                    i, sa[i] if i < len(sa) else "-", sb_[i] if i < len(sb_) else "-", len(sa), len(sb_))))
     depth_hist = {}
     for (p, files, base, where), a, b in zip(cases, pasted, split):
         ia, ib = lib_items(a), lib_items(b)
